@@ -208,6 +208,13 @@ class VCell:
         self.vec = vec
 
 
+class VVarRef:
+    """`&mut x` (x a local of the caller) bound to a parameter of an INLINED helper: reads see x's current value, `*p = v` writes x"""
+
+    def __init__(self, env, name):
+        self.env, self.name = env, name
+
+
 class VRefCell:
     """`&mut arr[i]` handed out by `iter_mut()` over a concrete array"""
 
@@ -223,6 +230,20 @@ def _int_lit(t):
         return int(t, 0)
     except ValueError:
         return None
+
+
+def _norm_cond(c):
+    """one spelling per condition: not(eq) -> ne, not(ne) -> eq, not(not x) -> x, not(lt) -> ge ..."""
+    FLIP = {"eq": "ne", "ne": "eq", "lt": "ge", "ge": "lt", "gt": "le", "le": "gt"}
+    while isinstance(c, VOpaque) and c.name == "not" and len(c.args) == 1 and isinstance(c.args[0], VOpaque):
+        inner = c.args[0]
+        if inner.name in FLIP and len(inner.args) == 2:
+            c = VOpaque(FLIP[inner.name], list(inner.args))
+        elif inner.name == "not" and len(inner.args) == 1:
+            c = inner.args[0]
+        else:
+            break
+    return c
 
 
 def _subst_sym(v, old, new):
@@ -697,7 +718,10 @@ class Interp:
         if len(segs) == 1:
             n = segs[0]
             if n in env:
-                return env[n]
+                v_ = env[n]
+                while isinstance(v_, VVarRef):      # auto-deref of a by-reference parameter
+                    v_ = v_.env[v_.name]
+                return v_
             if n in self.consts:
                 return self.consts[n]
             self.fail(e, f"unknown name `{n}`")
@@ -842,6 +866,10 @@ class Interp:
                 self.check_lazy_hazard(base, idx)
                 base.items[idx] = val
                 return
+            if isinstance(base, VOpaque) and target["e"]["k"] == "path" and len(target["e"]["segs"]) == 1:
+                # a vector of unknown length: the variable now holds "base with entry idx replaced by val"
+                set_var(env, target["e"]["segs"][0], VOpaque("updated", [base, idx, val]))
+                return
             self.fail(target, "indexed assignment on non-array")
         if k == "field":
             base = _deref(self.expr(target["e"], env))
@@ -852,6 +880,10 @@ class Interp:
         if k in ("paren",):
             return self.assign(target["e"], val, env)
         if k == "unary" and target["op"] == "*":
+            if target["e"]["k"] == "path" and len(target["e"]["segs"]) == 1 and isinstance(env[target["e"]["segs"][0]] if target["e"]["segs"][0] in env else None, VVarRef):
+                r_ = env[target["e"]["segs"][0]]
+                set_var(r_.env, r_.name, val)       # `*p = v` through a by-reference parameter writes the caller's local
+                return
             inner = self.expr(target["e"], env) if target["e"]["k"] == "path" else None
             if isinstance(inner, VRefCell):
                 self.check_lazy_hazard(inner.arr, inner.idx)
@@ -1073,13 +1105,31 @@ class Interp:
             if e["else"] is not None:
                 return self.expr(e["else"], env)
             return UNIT
+        if e["else"] is not None and e.get("__tail__"):
+            # the function's tail `if c { A } else { B }` where one branch is just `Err(e)`: the same as an early `return Err(e)`
+            def only_err(b):
+                st_ = b["stmts"] if b.get("k") == "block" else None
+                if st_ and len(st_) == 1 and st_[0]["k"] == "expr" and not st_[0].get("semi"):
+                    x = st_[0]["expr"]
+                    if x["k"] == "return" and x.get("e") is not None:
+                        x = x["e"]
+                    if x["k"] == "call" and x["f"].get("k") == "path" and x["f"]["segs"][-1] == "Err":
+                        return x
+                return None
+            el = e["else"] if e["else"].get("k") == "block" else None
+            err_then, err_else = only_err(e["then"]), (only_err(el) if el else None)
+            if (err_then is None) != (err_else is None):
+                rv = self.expr(err_then or err_else, env)
+                if isinstance(rv, VErr):
+                    self.ctx.exits.append(("err_if", _norm_cond(c if err_then is not None else VOpaque("not", [c])), rv.what))
+                    return self.expr(e["else"], env) if err_then is not None else self.block(e["then"], env)
         # symbolic condition: only the shape `if cond { return Err(..) }` (no else) is in the fragment
         if e["else"] is None:
             st = e["then"]["stmts"]
             if len(st) == 1 and st[0]["k"] == "expr" and st[0]["expr"]["k"] == "return" and st[0]["expr"].get("e") is not None:
                 rv = self.expr(st[0]["expr"]["e"], env)
                 if isinstance(rv, VErr):
-                    self.ctx.exits.append(("err_if", c, rv.what))
+                    self.ctx.exits.append(("err_if", _norm_cond(c), rv.what))
                     return UNIT
             # guarded effects: `if c { effects }` where the block only produces trace events (no assignment to
             # outer state, no early return): recorded as ONE event  if(c, [events])
@@ -1323,6 +1373,8 @@ class Interp:
         if isinstance(v, int) and v == 0:
             # `vec![0u8; n]`: a zeroed byte buffer of symbolic length
             return VOpaque("zeroed_vec", [as_poly(n)])
+        if isinstance(n, (Sym, VOpaque, Poly)):
+            return VOpaque("repeat_vec", [v, n])          # n clones of v, n symbolic
         raise OutsideFragment("vec![x; n] with symbolic length")
 
     def e_vec_list(self, e, env):
@@ -1346,6 +1398,10 @@ class Interp:
 
     def e_struct(self, e, env):
         name = e["path"].split("::")[-1]
+        if name == "Self" and getattr(self, "file_root", None) and self.file_root[2]:
+            own = self.file_root[2]
+            own = own[1:].split("as")[0].strip() if own.startswith("<") else own
+            name = own.split("::")[-1]              # `Self { .. }` == `Type { .. }`
         if e.get("rest") is not None:
             self.fail(e, "struct update syntax")
         return VStruct(name, {f["member"]: self.expr(f["e"], env) for f in e["fields"]})
@@ -1430,7 +1486,15 @@ class Interp:
         # a crate-local helper in the same file without a contract (typically introduced by the change under test):
         # fall back to its BODY (interprocedural symbolic execution, recorded), never for callees that have a contract
         if (len(segs) == 1 or (len(segs) == 2 and segs[0] == "Self")) and getattr(self, "file_root", None) and self.inline_depth < 3:
-            v = self.try_inline(segs[-1], args)
+            # `&mut local` arguments keep reference semantics inside the inlined body
+            args_i = []
+            for ae, av in zip(e["args"], args):
+                if ae.get("k") == "ref" and ae.get("mut") and ae["e"].get("k") == "path" and len(ae["e"].get("segs", [])) == 1 \
+                        and ae["e"]["segs"][0] in env and not isinstance(av, (VArr, VStruct, VCoeffVec, VStream)):
+                    args_i.append(VVarRef(env, ae["e"]["segs"][0]))
+                else:
+                    args_i.append(av)
+            v = self.try_inline(segs[-1], args_i)
             if v is not NotImplemented:
                 return v
         self.fail(e, f"call of `{path}` (no contract)")
@@ -1641,12 +1705,25 @@ class Interp:
             # uninterpreted collection  map_each(xs, f(xs[*]))  (order preserving, one output per input)
             saved = self.ctx.log
             self.ctx.log = []
-            body = self.call_closure(args[0], [recv.elem])
-            if self.ctx.log:
-                self.ctx.log = saved
-                self.fail(e, "effects inside map over a symbolic collection")
+            saved_loop = getattr(self, "generic_loop", None)
+            self.generic_loop = recv.base
+            try:
+                body = self.call_closure(args[0], [recv.elem])
+            finally:
+                self.generic_loop = saved_loop
+            sub = tuple(self.ctx.log)
             self.ctx.log = saved
-            return VSymIter.mapped(recv, body)
+            out = VSymIter.mapped(recv, body)
+            if sub:
+                # a mapping closure WITH trace effects: iterators are lazy, the effects happen when (and if) the iterator is consumed.
+                # They are kept pending and emitted, as one in-order event, by an immediately following `.collect()`; any other use of
+                # the iterator is outside the fragment.
+                if getattr(recv, "pending", None):
+                    self.fail(e, "two effectful maps chained over a symbolic collection")
+                out.pending = (recv.base.path, sub)
+            elif getattr(recv, "pending", None):
+                out.pending = recv.pending
+            return out
         if m in ("any", "all") and isinstance(recv, VSymIter) and isinstance(args[0], VClosure):
             saved = self.ctx.log
             self.ctx.log = []
@@ -1674,7 +1751,11 @@ class Interp:
                     return False
             return m == "all"
         if m == "collect" and isinstance(recv, VSymIter):
+            if getattr(recv, "pending", None):
+                self.ctx.event("for_each_in_order", recv.pending[0], recv.pending[1])
             return VOpaque("collected", [recv.sym])
+        if isinstance(recv, VSymIter) and getattr(recv, "pending", None):
+            self.fail(e, f"an iterator whose mapping closure has trace effects is consumed by `.{m}()` (only `.collect()` is in the fragment)")
         if m == "map" and isinstance(recv, VIter) and isinstance(args[0], VClosure):
             return VIter([self.call_closure(args[0], [x]) for x in recv.items])
         if m == "enumerate" and isinstance(recv, VIter):
@@ -2343,6 +2424,12 @@ def run_unit(root, unit, contracts, seed=0, perturb=None):
         it1.capture_closure = unit.closure
         ctx1.pcs = it1.path_conds
         try:
+            last_ = ast["body"]["stmts"][-1]
+            if last_["k"] == "expr" and not last_.get("semi") and last_["expr"]["k"] == "if":
+                last_["expr"]["__tail__"] = True
+        except (KeyError, IndexError):
+            pass
+        try:
             try:
                 res1 = it1.block(ast["body"], env)
                 if unit.closure:
@@ -2753,7 +2840,25 @@ def _diff_vars(a, b):
     return (va | vb)
 
 
+def _norm_value(v):
+    """`let mut v = Vec::new(); for x in s { v.push(f(x)) }`  ==  `s.iter().map(f).collect()`"""
+    if isinstance(v, VArr) and len(v.items) == 1 and isinstance(v.items[0], VOpaque) and v.items[0].name == "for_each_pushed" and len(v.items[0].args) == 2:
+        base, body = v.items[0].args
+        ident = isinstance(body, (Sym, VOpaque, Poly)) and canon(body) == canon(base) + "[*]"
+        return VOpaque("collected", [base if ident else Sym(VOpaque("map_each", [base, body]).canon())])
+    if isinstance(v, VStruct):
+        return VStruct(v.name, {k: _norm_value(x) for k, x in v.fields.items()})
+    if isinstance(v, VOk):
+        return VOk(_norm_value(v.v))
+    if isinstance(v, VOpaque):
+        return VOpaque(v.name, [_norm_value(x) for x in v.args])
+    if isinstance(v, VTuple):
+        return VTuple([_norm_value(x) for x in v.items])
+    return v
+
+
 def compare(a, b, seed):
+    a, b = _norm_value(a), _norm_value(b)
     if isinstance(a, (Poly, Sym)) and isinstance(b, (Poly, Sym, int)) or isinstance(b, (Poly, Sym)) and isinstance(a, (Poly, Sym, int)):
         pa, pb = as_poly(a), as_poly(b)
         d = pa - pb
